@@ -28,9 +28,9 @@ def run(ctx):
         if s[0] == 'T':
             rel.append((s, ('A', s[1], ('U', False, tuple(s[2])))))
             rel.append((('T', True, s[2]), ('A', False, ('U', False, tuple(s[2])))))
-    rel = [(vlib.norm_sh(a), vlib.norm_sh(b)) for a, b in rel]
+    rel = [(vlib.norm_sh(a), vlib.norm_sh(b)) for a, b in rel] + vlib.structured_pairs(stride=1 if ctx.tier != 'quick' else 2)
     lines2 = ["subset\t%s\t%s" % (sh_str(a), sh_str(b)) for a, b in rel]
-    mi2, _ = ctx.correspond(lines2, "is_subset random related deep pairs", nt)
+    mi2, _ = ctx.correspond(lines2, "is_subset random related deep pairs + structured level-2 pairs", nt)
     # ---- oracle: accepted pairs, witnesses of a against b
     acc = [(a, b, l) for (a, b), l, r in zip([(x, y) for x in l1 for y in l1], lines, mi) if r == "BOOL 1"]
     acc += [(a, b, l) for (a, b), l, r in zip(rel, lines2, mi2) if r == "BOOL 1"]
